@@ -4,19 +4,58 @@ import os
 
 VERIF = os.path.dirname(os.path.dirname(os.path.abspath(__file__)))
 
+TLC_NOTE = "trusted: TLC; the reference modules named in the text as the reading of the property; the JSON projection of public attributes (harness/observe.py); the pretty-printer (harness/render.py)"
+
 CHECKS = {
+    "C01": dict(level="model_checking", design_ref="DESIGN.md §5 C01",
+                text="For every generated program (families f1/f2/f3/layout of Gen.tla) TLC explores every execution of the "
+                     "concrete AVM machine (Avm.tla) over one representative input per region cut by the program's constants "
+                     "(Reps.tla).  In every accepting state each of the nine detectors whose dangerous value is carried must "
+                     "have reported a path on the real tool (ProgCheck.tla, clause c01.miss).",
+                technique="TLC exploration of a TLA+ AVM semantics with the real detectors' output bound in as data"),
+    "C03": dict(level="model_checking", design_ref="DESIGN.md §5 C03",
+                text="PathSem.tla (comparisons of one governed field exact, everything else free) is explored by TLC for every "
+                     "program of the direct-check families, every governed field and value; ExactJudge.tla then demands that a "
+                     "detector reported only if some valid path consists of blocks admitting its dangerous value.",
+                technique="TLC exploration of the abstract walk semantics (PathSem/ExactWalk) + TLC-evaluated judgement (ExactJudge)"),
     "C04": dict(level="model_checking", design_ref="DESIGN.md §5 C04",
-                text="The real tool's graph for every generated program (layout grammar: dead code that branches, "
-                     "back edges, branch/call last, branch to next line, 0-2 subroutines before/after main; plus the "
-                     "check families) is compared clause by clause with Cfg!Graph by TLC (CfgCheck.tla).",
-                note="trusted: TLC; Cfg.tla as the reading of the property; the JSON projection of public attributes",
-                technique="TLA+ reference CFG (Cfg.tla) + TLC judging observations of the real parser on TLC-generated programs"),
+                text="Static: the real tool's graph for every generated program is compared clause by clause with Cfg!Graph "
+                     "(CfgCheck.tla).  Dynamic: every step of every Avm execution must be an edge of the OBSERVED graph, blocks "
+                     "entered at their first and left at their last instruction, retsub returning to the block after its own "
+                     "callsub (ProgCheck.tla, clauses c04.walk.*).",
+                technique="TLA+ reference CFG (Cfg.tla) + TLC exploration of Avm executions as walks of the observed graph"),
     "C05": dict(level="model_checking", design_ref="DESIGN.md §5 C05",
                 text="Subroutine set, membership, exits, call sites, return points and the per-function caller tables "
                      "recorded by the real tool are compared with Cfg.tla for every generated program.",
-                note="trusted: TLC; Cfg.tla; the JSON projection of public attributes",
                 technique="TLA+ reference call structure (Cfg.tla) + TLC judging observations of the real parser"),
+    "C06": dict(level="model_checking", design_ref="DESIGN.md §5 C06",
+                text="Soundness: in every accepting Avm state the group's size and own index are in the recorded sets of every "
+                     "visited block (all (size,index) pairs).  Exactness on the direct-check families: recorded sets equal the "
+                     "values admitted by some accepting PathSem walk through the block (call-site-merged walks allowed for "
+                     "subroutines with several call sites); index < some size.",
+                technique="TLC exploration of Avm.tla (soundness) and of PathSem.tla (exactness) judged against recorded contexts"),
+    "C07": dict(level="model_checking", design_ref="DESIGN.md §5 C07",
+                text="In every accepting Avm state, over all well-formed (TypeEnum, OnCompletion, ApplicationID), the recorded "
+                     "kind set of every visited block contains Pay / Axfer / ApplUpdateApplication / ApplDeleteApplication when "
+                     "the transaction is of that kind.",
+                technique="TLC exploration of a TLA+ AVM semantics with recorded kind sets bound in"),
+    "C08": dict(level="model_checking", design_ref="DESIGN.md §5 C08",
+                text="Soundness in every accepting Avm state for RekeyTo/CloseRemainderTo/AssetCloseTo/Sender over {zero, literal, "
+                     "creator, fresh}; converse: a block through which no accepting PathSem walk admits a fresh address is not "
+                     "recorded as 'any address'.",
+                technique="TLC exploration of Avm.tla and PathSem.tla judged against recorded address information"),
+    "C09": dict(level="model_checking", design_ref="DESIGN.md §5 C09",
+                text="Soundness: Fee <= recorded bound in every accepting Avm state (representatives c-1,c,c+1, 0, 272000, 272001, "
+                     "2^64-1).  Exactness on the direct-check families: the bound equals the largest admitted representative.",
+                technique="TLC exploration of Avm.tla and PathSem.tla judged against recorded fee bounds"),
+    "C10": dict(level="model_checking", design_ref="DESIGN.md §5 C10",
+                text="In every accepting Avm state over groups with up to three members read: absolute_context(i) admits member i, "
+                     "gtxn_context(own index) admits the own transaction, relative_context(k) admits member index+k; members "
+                     "nobody reads are represented by arbitrary transactions.",
+                technique="TLC exploration of a TLA+ AVM group semantics with the recorded sub-contexts bound in"),
 }
+for _c in CHECKS.values():
+    _c.setdefault("note", TLC_NOTE)
 
 NOT_YET = {}
 
